@@ -1256,6 +1256,131 @@ func (d *driver) deliverAll(ms []mutant, stage string) {
 	}
 }
 
+// ---------- arrival while the parent is busy ----------
+
+func (d *driver) chanOf(p *party, id channel.ID) *client.Channel {
+	for _, ch := range d.chans[p] {
+		if ch.ID() == id {
+			return ch
+		}
+	}
+	return nil
+}
+
+// busyCases: a sub-channel (virtual channel) proposal arrives while an update of the parent is
+// waiting for the receiver's decision, i.e. while the parent's machine mutex is held. The update
+// moves funds so that the proposal flips between fundable and unfundable (both directions; and the
+// same with the update rejected). What counts is the parent's state when the handler obtains the
+// mutex: the observation is compared with handle_proposal_locked on (situation at arrival, situation
+// under the lock) and with the oracle on the situation under the lock.
+func (d *driver) busyCases(first *client.Channel) {
+	type scen struct {
+		name   string
+		flip   bool // true: unfundable on arrival, fundable after the update; false: the reverse
+		accept bool
+	}
+	scens := []scen{
+		{"fundable-then-update-takes-funds", false, true},
+		{"unfundable-then-update-brings-funds", true, true},
+		{"fundable-update-rejected", false, false},
+		{"unfundable-update-rejected", true, false},
+	}
+	run := func(kind string, parentID channel.ID, peer *party, mk func() client.ChannelProposal, col func(p client.ChannelProposal, part int) int) {
+		own, peerCh := d.chanOf(d.A, parentID), d.chanOf(peer, parentID)
+		if own == nil || peerCh == nil {
+			return
+		}
+		for _, sc := range scens {
+			pre := own.State()
+			prop := mk()
+			if prop == nil {
+				return
+			}
+			// asset i, virtual/sub participant j asks for funds of the parent's participant q
+			i, j := d.g.R.Intn(len(pre.Balances)), d.g.R.Intn(2)
+			q := col(prop, j)
+			have, other := pre.Balances[i][q], pre.Balances[i][1-q]
+			b := prop.Base().InitBals.Balances.Clone()
+			post := pre.Balances.Clone()
+			if !sc.flip {
+				if have.Sign() == 0 {
+					continue
+				}
+				// asks for everything q has; the update takes 1..have away from q
+				delta := new(big.Int).Add(big.NewInt(1), d.bigBal(new(big.Int).Sub(have, big.NewInt(1))))
+				b[i][j] = new(big.Int).Set(have)
+				post[i][q] = new(big.Int).Sub(have, delta)
+				post[i][1-q] = new(big.Int).Add(other, delta)
+			} else {
+				if other.Sign() == 0 {
+					continue
+				}
+				// asks for k more than q has; the update brings k..other from the other participant
+				k := new(big.Int).Add(big.NewInt(1), d.bigBal(new(big.Int).Sub(other, big.NewInt(1))))
+				delta := new(big.Int).Add(k, d.bigBal(new(big.Int).Sub(other, k)))
+				b[i][j] = new(big.Int).Add(have, k)
+				b[i][1-j] = big.NewInt(0) // the other participant gives funds away: ask for nothing there
+				post[i][q] = new(big.Int).Add(have, delta)
+				post[i][1-q] = new(big.Int).Sub(other, delta)
+			}
+			prop.Base().InitBals.Balances, prop.Base().FundingAgreement = b, b.Clone()
+			name := "busy/" + kind + "/" + sc.name
+			ctx0 := d.snap(d.A)
+			pt := propTerm(prop)
+			r := d.wd.deliverBusy(d.B.addr, prop, peerCh, own, func(s *channel.State) { s.Balances = post.Clone() }, sc.accept)
+			if r.skipped != "" || (r.updErr == nil) != sc.accept {
+				d.res.Warnings = append(d.res.Warnings, fmt.Sprintf("%s: interleaving not established: %s %v", name, r.skipped, r.updErr))
+				continue
+			}
+			ctx1 := d.snap(d.A) // nothing but the decided update has touched the parent
+			good, why := oracleGood(ctx1, d.B.addr, prop)
+			idx := d.w.add(hx.App("CLocked", d.w.ctx(ctx0, false), d.w.ctx(ctx1, false), cv.Ramap(d.B.addr), pt, outcomeTerm[r.outcome]), name)
+			d.res.Count(name, r.outcome, fmt.Sprintf("%s/%s/early=%v/blocked=%v/%d", name, r.outcome, r.early, r.blocked, len(d.assets)), false)
+			site := "client.handleChannelProposal"
+			switch {
+			case r.outcome == "panic":
+				d.anyPanic = true
+				d.fail(site, name, "handling a proposal that arrived while the parent was locked panicked: "+r.detail, idx, pt)
+			case r.outcome == "timeout":
+				d.fail(site, name, "handling a proposal that arrived while the parent was locked did not return: "+r.detail, idx, pt)
+			case r.outcome == "called" && !good:
+				d.fail(site, name, "a proposal that is inconsistent with the parent's state when the handler runs ("+why+") was passed to the proposal handler: it was fundable only before the update that held the parent's mutex", idx, pt)
+			case r.outcome == "dropped" && good:
+				d.fail(site, name, "a proposal that is well-formed for the parent's state under the lock was dropped (it was unfundable only before the update that held the parent's mutex)", idx, pt)
+			}
+			if !r.lockFree {
+				d.fail(site, name, "the parent's machine mutex is still held after handleChannelProposal returned", idx, pt)
+			}
+		}
+	}
+	if first != nil {
+		par := first.ID()
+		run("sub", par, d.B, func() client.ChannelProposal {
+			ps, ok := d.snap(d.A).find(par)
+			if !ok {
+				return nil
+			}
+			al := d.alloc(func(a, p int) *big.Int { return d.bigBal(new(big.Int).Rsh(ps.state.Balances[a][p], 2)) })
+			prop, err := client.NewSubChannelProposal(par, d.cd(), al, d.opts(d.B, false)...)
+			if err != nil {
+				panic(err)
+			}
+			d.pid(prop)
+			return prop
+		}, func(_ client.ChannelProposal, part int) int { return part })
+	}
+	if hub := d.hubChannel(d.A); hub != nil && d.hubChannel(d.B) != nil {
+		run("virtual", hub.ID(), d.I, func() client.ChannelProposal {
+			if vp := d.virtualProposal(d.B, d.A, d.bPart); vp != nil {
+				return vp
+			}
+			return nil
+		}, func(p client.ChannelProposal, part int) int {
+			return int(p.(*client.VirtualChannelProposalMsg).IndexMaps[1][part])
+		})
+	}
+}
+
 // liveSample: proposals delivered to a client running the unmodified Client.Handle loop (party B).
 // Dropping is observed through a sentinel: a well-formed proposal published afterwards has reached
 // the handler. Only run while nothing has panicked (a panic in the real loop kills the process).
@@ -1515,6 +1640,7 @@ func (d *driver) world(k int) {
 		d.deliverAll(d.subMutants(ctx, d.tier == "thorough"), "locked")
 		d.deliverAll(d.virtMutants(ctx, d.tier == "thorough"), "locked")
 	}
+	d.busyCases(first.chP)
 	d.liveSample(6)
 }
 
